@@ -137,6 +137,11 @@ func LabelID(id int64) string {
 //
 //	http://www.llvm.org/docs/LangRef.html#identifiers
 func TypeName(name string) string {
+	// Numeric type names denote numbered types (e.g. %42) and are printed as
+	// is.
+	if isDecimal(name) {
+		return "%" + name
+	}
 	return "%" + EscapeIdent(name)
 }
 
@@ -232,6 +237,11 @@ const (
 func EscapeIdent(s string) string {
 	replace := false
 	extra := 0
+	if len(s) > 0 && strings.IndexByte(decimal, s[0]) != -1 {
+		// An identifier starting with a digit is not valid unless quoted; e.g.
+		// @2a is lexed as the ID @2 followed by a.
+		replace = true
+	}
 	for i := 0; i < len(s); i++ {
 		if strings.IndexByte(tail, s[i]) == -1 {
 			// Check if a replacement is required.
@@ -371,6 +381,19 @@ func Unquote(s string) []byte {
 	// Skip double-quotes.
 	s = s[1 : len(s)-1]
 	return Unescape(s)
+}
+
+// isDecimal reports whether s is a non-empty string of decimal digits.
+func isDecimal(s string) bool {
+	if len(s) == 0 {
+		return false
+	}
+	for i := 0; i < len(s); i++ {
+		if strings.IndexByte(decimal, s[i]) == -1 {
+			return false
+		}
+	}
+	return true
 }
 
 // unhex returns the numeric value represented by the hexadecimal digit b. It
